@@ -197,7 +197,7 @@ func c13RegistryDeleteOnlyWhatWasFound(p *Prog, r *Report, rule string) {
 	if fi == nil {
 		return
 	}
-	f := p.FlatInl(fi)
+	f := p.FlatInl(fi).SplitBools()
 	info := fi.Pkg.TypesInfo
 	dels := f.Match(func(n *GNode) bool {
 		for _, c := range callsIn(n.Ast, false) {
